@@ -46,6 +46,7 @@ def plan(tier, seed):
         shards.append({"kind": "multisig", "n": 220 if q else 2500})
     shards.append({"kind": "lock_rand", "n_lock": 4000 * mult, "n_rand": 6000 * mult})
     shards.append({"kind": "lock_rand", "n_lock": 1000 * mult, "n_rand": 9000 * mult})
+    shards.append({"kind": "suite", "label": "suite"})
     return shards
 
 
@@ -261,6 +262,11 @@ class Monitor:
 
 
 def run_shard(spec, rec):
+    if spec["kind"] == "suite":
+        from vmon import suite
+        rec.require("suite.check_solution")
+        suite.run_suite(spec, rec, ["suite.check_solution"], "suite.check_solution")
+        return
     rec.require("Tx.check_solution")
     mon = Monitor(rec)
     rng = shard_rng(spec["seed"], PROPERTY, spec["tier"], spec["shard"])
